@@ -110,6 +110,37 @@ def t_relabel(spec, rng):
     return s, 1
 
 
+def t_relabel_permute(spec, rng):
+    """rename by a PERMUTATION of the existing tip names (swap, 3-cycle or a full derangement) through cogent3's own
+    TreeNode.reassign_names (with and without nodes=), the alignment rows and edge-scoped rules renamed the same way"""
+    import cogent3
+
+    tips = U.tree_tips(spec["tree"])
+    kind = rng.choice(["swap", "cycle3", "derangement"])
+    if kind == "swap" or len(tips) < 3:
+        a, b = rng.sample(tips, 2)
+        ren = {a: b, b: a}
+    elif kind == "cycle3":
+        a, b, c = rng.sample(tips, 3)
+        ren = {a: b, b: c, c: a}
+    else:
+        sh = tips[:]
+        rng.shuffle(sh)
+        ren = {sh[i]: sh[(i + 1) % len(sh)] for i in range(len(sh))}
+    tree = cogent3.make_tree(spec["newick"])
+    with_nodes = rng.random() < 0.5
+    if with_nodes:
+        tree.reassign_names(ren, nodes=list(tree.tips()))
+    else:
+        tree.reassign_names(ren)
+    s = _with_tree(spec, _tree_from_cogent(tree))
+    full = {t: ren.get(t, t) for t in tips}
+    s["seqs"] = {full[t]: v for t, v in spec["seqs"].items()}
+    s["rules"] = [dict(r, edge=full.get(r["edge"], r["edge"])) if "edge" in r else r for r in spec["rules"]]
+    s["how"] = f"{kind}:{'nodes' if with_nodes else 'all'}"
+    return s, 1
+
+
 def _strip_edge_rules(spec):
     s = copy.deepcopy(spec)
     s["rules"] = [r for r in spec["rules"] if "edge" not in r]
@@ -249,7 +280,7 @@ def t_root_on_edge(spec, rng):
 
 TRANSFORMS = {
     "columns": t_columns, "seq_order": t_seq_order, "children": t_children, "repeat": t_repeat,
-    "relabel": t_relabel, "reroot": t_reroot, "split": t_split, "unrooted": t_unrooted,
+    "relabel": t_relabel, "relabel_permute": t_relabel_permute, "reroot": t_reroot, "split": t_split, "unrooted": t_unrooted,
     "midpoint": t_midpoint, "root_on_edge": t_root_on_edge,
 }
 REVERSIBLE_ONLY = ("reroot", "unrooted", "midpoint", "root_on_edge")
@@ -267,7 +298,7 @@ def applicable(spec, name):
 def jobs_for(base, rng, full):
     """the list of (relation name, thunk) run on one base problem"""
     jobs = []
-    for t in ("columns", "seq_order", "children", "children", "repeat", "relabel", "unrooted", "midpoint",
+    for t in ("columns", "seq_order", "children", "children", "repeat", "relabel", "relabel_permute", "relabel_permute", "unrooted", "midpoint",
               "root_on_edge", "root_on_edge"):
         if applicable(base, t):
             jobs.append((t, (lambda t=t: TRANSFORMS[t](base, rng))))
@@ -298,7 +329,9 @@ def _rel_sig(tname, base, spec2):
         t = "unrooted-with-zero-length-edge"
     elif tname == "reroot":
         t = "reroot-" + str(spec2.get("how"))
-    return f"rel:{t}:{base['kind']}:bins={'y' if base.get('bins', 1) > 1 else 'n'}"
+    elif tname == "relabel_permute":
+        t = "relabel_permute-" + str(spec2.get("how", "")).split(":")[0]
+    return f"rel:{t}:{base['kind']}:bins={'y' if base.get('bins', 1) > 1 else 'n'}" + (":tied-rate-terms" if base.get("adversarial") and "zero-length-edge" not in t else "")
 
 
 def _slack(lf):
@@ -322,7 +355,28 @@ def _holds(l2, want, slack):
     return abs(l2 - want) <= REL * abs(want) + 1e-12 + slack
 
 
-def _pairs(ctx, rng, plan, out, collect=None, only=None):
+NEAR_DEFECTIVE = [
+    {"A>C": 1.0, "C>T": 1.0, "_other": 1e-4},
+    {"A>G": 3.0, "C>T": 3.0, "T>A": 3.0, "_other": 1.0},
+    {"A>C": 1.0, "C>G": 1.0, "G>T": 1.0, "_other": 1e-3},
+]
+
+
+def _adversarial_rules(rng, name):
+    """in-bounds settings with tied / equal / nearly vanishing rate terms: the generator is defective or nearly so, which
+    is where an unchecked eigen-decomposition goes wrong while P(s)P(t) = P(s+t) must still hold"""
+    sm = U.get_sm(name)
+    pnames = [p for p in sm.get_param_list()]
+    r = rng.random()
+    if name == "GN" and r < 0.85:
+        pat = rng.choice(NEAR_DEFECTIVE)
+        other = pat["_other"] * rng.choice([1.0, 1.0, 0.5, 2.0])
+        return [dict(par_name=p, init=pat.get(p, other)) for p in pnames]
+    pool = rng.choice([[1.0], [1.0, 3.0], [1e-4, 1.0], [1e-3, 1e-3, 1.0, 2.0], [0.5, 0.5, 2.0], [1e-6, 1.0, 1e6]])
+    return [dict(par_name=p, init=rng.choice(pool)) for p in pnames]
+
+
+def _pairs(ctx, rng, plan, out, collect=None, only=None, adversarial=False):
     """for every base problem run the applicable relations on the real implementation.
     plan: [(model name, max number of relations or None for all)]"""
     for name, limit in plan:
@@ -335,7 +389,14 @@ def _pairs(ctx, rng, plan, out, collect=None, only=None):
             # after repeating columns; the relations are between runs with identical parameters
             base["mprobs"] = U.rand_mprobs(rng, [str(m) for m in U.get_sm(name).get_alphabet()])
         try:
-            lf0 = U.build_lf(base, rng)  # generates the rules
+            if adversarial and kind == "nucleotide" and name not in U.DISCRETE:
+                base["rules"] = _adversarial_rules(rng, name)
+                base["scoped"] = False
+                base["adversarial"] = True
+                bump(out, "adversarial_parameters", name)
+                lf0 = U.build_lf(base, None)
+            else:
+                lf0 = U.build_lf(base, rng)  # generates the rules
             l0 = float(lf0.lnL)
             slack0 = _slack(lf0)
         except Exception as e:
@@ -345,7 +406,7 @@ def _pairs(ctx, rng, plan, out, collect=None, only=None):
         if collect is not None:
             collect.append(base)
         bump(out, "root_layout", _root_layout(base["tree"]))
-        jobs = jobs_for(base, rng, ctx.thorough)
+        jobs = jobs_for(base, rng, ctx.thorough or adversarial)
         if only:
             jobs = [j for j in jobs if j[0] in only]
         if limit is not None and len(jobs) > limit:
@@ -456,6 +517,13 @@ def spec_check(ctx, budget):
     else:
         plan = _plan(ctx, rng, 10 * budget, max(2, budget // 2), max(1, budget // 2), 2)
     _pairs(ctx, rng, plan, out)
+    # tied / near-defective in-bounds parameters: every edge split (and the root inside an edge / moved, for the reversible
+    # models) for the continuous-time nucleotide models, non-reversible GN / ssGN included
+    kinds = U.model_kinds()
+    nuc = [m for m, k in kinds.items() if k == "nucleotide" and m not in U.DISCRETE]
+    n_adv = (8 if budget <= 1 else 4 * budget) * (3 if ctx.thorough else 1)
+    adv = [(("GN", "GN", "GN", "ssGN")[(i // 2) % 4] if i % 2 == 0 else nuc[(i + ctx.seed) % len(nuc)], None) for i in range(n_adv)]
+    _pairs(ctx, rng, adv, out, only=("split", "root_on_edge", "reroot", "midpoint"), adversarial=True)
     return out
 
 
